@@ -4,6 +4,7 @@ package mdrv
 
 import (
 	"fmt"
+	"github.com/biogo/biogo/align/pals/filter"
 	"io"
 	"os"
 	"path/filepath"
@@ -36,10 +37,29 @@ func sv(v int) SV {
 	return e
 }
 
+// hv is the hit element for key v: the library's own element type (what pals sorts with a Morass), with a
+// diagonal that is negative for some keys and large for others.
+func hv(v int) filter.Hit {
+	h := filter.Hit{From: v, To: v + 7, Diagonal: 3 - 2*v}
+	if v%4 == 0 {
+		h.Diagonal = 1<<40 + v
+	}
+	return h
+}
+
+// TV and FV are further element types: a process may sort values of several types.
+type TV string
+
+func (a TV) Less(b interface{}) bool { return a < b.(TV) }
+
+type FV float64
+
+func (a FV) Less(b interface{}) bool { return a < b.(FV) }
+
 // Warm registers the element type with gob once, outside any exploration, so
 // that every explored execution takes the same path through morass.register.
 func Warm() {
-	for _, proto := range []interface{}{IV(0), SV{}} {
+	for _, proto := range []interface{}{IV(0), SV{}, TV(""), FV(0), filter.Hit{}} {
 		if m, err := morass.New(proto, "warm", "", 1, false); err == nil {
 			m.CleanUp()
 		}
@@ -64,6 +84,7 @@ type Scenario struct {
 	Faults     bool // C13: errors are expected when a fault was injected
 	Continue   bool // after a failing call the cycle is abandoned, the sorter cleared and the next cycle run (C13: a failure in a later cycle must surface as well)
 	Abandon    bool // the first cycle is given up after its pushes: Clear without Finalise or Pull, then the next cycle
+	Hit        bool // elements of the library's own filter.Hit type (negative and large diagonals)
 	Struct     bool // struct elements some of whose fields are zero for some values (an encoding that omits zero fields)
 	AutoClear  bool // the sorter clears itself when a drain reaches io.EOF; no explicit Clear between cycles
 	Residue    bool // C13: the sorter lives in a directory of its own; after a last cycle that was drained to io.EOF under AutoClear no run file may be left, whatever failed before
@@ -97,6 +118,9 @@ func (s Scenario) Name() string {
 	}
 	if s.Struct {
 		after += "-struct"
+	}
+	if s.Hit {
+		after += "-hit"
 	}
 	return fmt.Sprintf("sort-%s-chunk%d-push%s%s", mode, s.Chunk, strings.Join(cs, "+"), after)
 }
@@ -168,6 +192,9 @@ func (s Scenario) Mk() vrt.Run {
 		if s.Struct {
 			proto = SV{}
 		}
+		if s.Hit {
+			proto = filter.Hit{}
+		}
 		m, err := morass.New(proto, "vrt", parent, s.Chunk, s.Concurrent)
 		if err != nil {
 			newErr = err
@@ -182,6 +209,9 @@ func (s Scenario) Mk() vrt.Run {
 			for i := n; i > 0; i-- {
 				v := base + i
 				if do("Push", func() error {
+					if s.Hit {
+						return m.Push(hv(v))
+					}
 					if s.Struct {
 						return m.Push(sv(v))
 					}
@@ -202,7 +232,11 @@ func (s Scenario) Mk() vrt.Run {
 			for {
 				var v IV
 				var w SV
+				var h filter.Hit
 				err := do("Pull", func() error {
+					if s.Hit {
+						return m.Pull(&h)
+					}
 					if s.Struct {
 						return m.Pull(&w)
 					}
@@ -213,6 +247,11 @@ func (s Scenario) Mk() vrt.Run {
 				}
 				if err != nil {
 					return false
+				}
+				if s.Hit {
+					if v = IV(h.From); h != hv(h.From) {
+						v = IV(-1000 - h.From) // a hit came back with other fields: shows as a wrong value
+					}
 				}
 				if s.Struct {
 					v = IV(w.K)
